@@ -47,7 +47,7 @@ def error_blocks(bi):
         if t.k == "call" and t.callee is not None and t.callee.path == "std::ops::FromResidual::from_residual":
             out.add(blk.idx)
         for s in blk.stmts:
-            if s.k == "assign" and s.lhs.is_local() and s.lhs.local == 0 and s.rv.k == "agg" and s.rv.j.get("variant") == "Err":
+            if s.k == "assign" and s.lhs.is_local() and (s.lhs.local == 0 or s.lhs.local in bi.body.ret_locals) and s.rv.k == "agg" and s.rv.j.get("variant") == "Err":
                 out.add(blk.idx)
     return out
 
